@@ -52,8 +52,16 @@ Others == <<
   <<EmbedS(StrE("incs"), NoE, TRUE, <<>>)>>, <<EmbedS(StrE("incs"), NoE, FALSE, <<>>)>>, <<EmbedS(StrE("incs"), A, TRUE, <<>>)>>,
   <<EmbedS(StrE("incs"), A, FALSE, <<[name |-> "eb", body |-> <<SetS("z", B), PrintS(NameE("z"))>>]>>)>>,
   <<EmbedS(StrE("incs"), NoE, TRUE, <<[name |-> "eb", body |-> <<SetS("z", B), ImportS(StrE("inc"), "mm")>>]>>)>>,
-  <<EmbedS(A, B, TRUE, <<>>)>>
+  <<EmbedS(A, B, TRUE, <<>>)>>,
+  (* macro calls with fewer and with more arguments than parameters, through each of the three routes *)
+  <<FromS(StrE("mlib"), << <<"m0", "m0">>, <<"m1", "x1">>, <<"m2", "m2">> >>), PrintS(CallE("m0", <<A, B>>)), PrintS(CallE("x1", <<A, B, A>>)),
+    PrintS(CallE("m2", <<A>>)), PrintS(CallE("m2", <<A, B, B, A>>)), PrintS(CallE("x1", <<>>))>>,
+  <<ImportS(StrE("mlib"), "L"), PrintS(AttrCall(NameE("L"), "m0", <<A, B>>)), PrintS(AttrCall(NameE("L"), "m1", <<A, B, A>>)),
+    PrintS(AttrCall(NameE("L"), "m2", <<A>>)), PrintS(AttrCall(NameE("L"), "m2", <<A, B, B, A>>)), PrintS(AttrCall(NameE("L"), "nomacro", <<A>>))>>,
+  <<MacroS("s1", <<"p1">>, <<PrintS(NameE("p1"))>>), PrintS(AttrCall(NameE("_self"), "s1", <<A, B, A>>)), PrintS(AttrCall(NameE("_self"), "s1", <<>>))>>
 >>
+MLib == <<MacroS("m0", <<>>, <<Text("m0")>>), MacroS("m1", <<"p1">>, <<Text("m1:"), PrintS(NameE("p1"))>>),
+          MacroS("m2", <<"p1", "p2">>, <<Text("m2:"), PrintS(NameE("p1")), Text(","), PrintS(NameE("p2"))>>)>>
 NOth == Len(Others)
 OpsCase(j) ==       \* j in 0 .. (NB + NOth) * NO * NO - 1
   LET f == j % (Len(BinOps) + NOth)
@@ -98,7 +106,7 @@ Vecc(j) ==
   IF j < NOps THEN
     LET c == OpsCase(j)
         ctx == ("a" :> c.a) @@ ("b" :> c.b)
-        tpls == ("t" :> c.body) @@ ("inc" :> IncTpl) @@ ("incs" :> IncsTpl)
+        tpls == ("t" :> c.body) @@ ("inc" :> IncTpl) @@ ("incs" :> IncsTpl) @@ ("mlib" :> MLib)
         pure == IsPure(c.a) /\ IsPure(c.b)
         st == IF pure THEN Execute(tpls, "t", ctx).status ELSE "go"
     IN [id |-> "C02-" \o ToString(j), fam |-> "ops", k |-> "render", env |-> "core", tpls |-> tpls, entry |-> "t", ctx |-> ctx,
